@@ -6,11 +6,13 @@ import (
 	"fmt"
 	"math/bits"
 	"strings"
+	"time"
 
 	"github.com/lidofinance/dc4bc/client/api/dto"
 	"github.com/lidofinance/dc4bc/client/types"
 	"github.com/lidofinance/dc4bc/fsm/types/requests"
 	"github.com/lidofinance/dc4bc/fsm/types/responses"
+	"github.com/lidofinance/dc4bc/storage"
 
 	"verifharness/oracle"
 	"verifharness/sched"
@@ -49,9 +51,13 @@ func batchTasks(k int) []requests.SigningTask {
 func signingAlphabet(ce *Ceremony, batches int) ([]*exEvent, error) {
 	w, n := ce.W, ce.N
 	var out []*exEvent
-	t0 := now()
 	for k := 1; k <= batches; k++ {
-		prop := HandBuiltProposal(w.Nodes[0], ce.Round, batchName(k), 0, batchTasks(k))
+		// batch 2 is proposed and answered 400 days after the key generation (clocks are the senders')
+		t0 := now()
+		if k == 2 {
+			t0 = t0.Add(400 * 24 * time.Hour)
+		}
+		prop := handBuiltProposalAt(w.Nodes[0], ce.Round, batchName(k), 0, batchTasks(k), t0)
 		prop.ID = "propose-" + batchName(k)
 		out = append(out, &exEvent{Label: fmt.Sprintf("propose(%d)", k), Kind: "propose", P: 0, Phase: k, Batch: batchName(k), Msg: prop, Known: true})
 		src, _ := json.Marshal(batchTasks(k))
@@ -95,6 +101,7 @@ func signingAlphabet(ce *Ceremony, batches int) ([]*exEvent, error) {
 		m.ID = "partial-wrongsig"
 		out = append(out, &exEvent{Label: fmt.Sprintf("partial(%d,b1,wrongsig)", p), Kind: "partial", P: p, Phase: 1, Batch: batchName(1), Variant: "wrongsig", Msg: m, Known: true})
 	}
+	t0 := now()
 	{
 		m := world.SignMsg(w.Nodes[n-1], ce.Round, EvPartialErr, mkReq(map[string]interface{}{"ParticipantId": n - 1, "Error": "bad \x01\x07\x7f\v \"quoted\" end", "CreatedAt": t0}), "")
 		m.ID = "partialerr-hostile"
@@ -188,6 +195,11 @@ func judgeSigningTransition(c *Ctx, n, t int, ex *explorer, s *exState, ev *exEv
 		return mon, false // re-posting an identical proposal is C10/C18's subject, neither explored nor judged here
 	}
 	recon := reconstructionObserved(res)
+	// a genuine, first answer of an invited participant to the batch being collected must be taken
+	if res.Err != nil && ev.Kind == "partial" && ev.Variant == "valid" && ev.Known && mon.Cur != 0 && ev.Phase == mon.Cur &&
+		mon.Contrib&(1<<uint(ev.P)) == 0 && mon.Fails&(1<<uint(ev.P)) == 0 {
+		c.Violate("C06/genuine-contribution-to-current-batch-refused", fmt.Sprintf("%s is participant %d's first answer to the batch being collected (%d of t=%d so far) but was refused in %s: %v", ev.Label, ev.P, bits.OnesCount32(mon.Contrib), t, res.Before, res.Err), wit())
+	}
 	if res.Err != nil {
 		if res.ProjA != res.ProjB {
 			c.Violate("C06/rejected-event-changed-round", fmt.Sprintf("%s in %s returned an error but the persisted round changed (%s -> %s)", ev.Label, res.Before, res.Before, res.After), wit())
@@ -248,6 +260,8 @@ func judgeSigningTransition(c *Ctx, n, t int, ex *explorer, s *exState, ev *exEv
 		if recon {
 			finished = true
 			c.Add("reconstructions_observed", 1)
+		} else if cnt < t && bits.OnesCount32(nm.Fails) <= n-t && res.After != StAwaitPartials {
+			c.Violate("C06/batch-ended-before-t-contributions", fmt.Sprintf("after %d of t=%d contributions and %d failure report(s) the round left the collecting state: %s", cnt, t, bits.OnesCount32(nm.Fails), res.After), wit())
 		}
 		if ev.Variant == "wrongsig" {
 			return nm, false // only used to judge "a failed reconstruction persists nothing"
@@ -402,4 +416,10 @@ func c19SigningImpl(c *Ctx) {
 		c.Add("signing_states", st)
 		c.Sample(map[string]interface{}{"exploration": "node-level signing", "n": n, "t": t, "states": st, "state_names": sortedKeys(names)})
 	})
+}
+
+func handBuiltProposalAt(n *world.Node, round, batchID string, pid int, tasks []requests.SigningTask, at time.Time) storage.Message {
+	req := requests.SigningBatchProposalStartRequest{BatchID: batchID, ParticipantId: pid, CreatedAt: at, SigningTasks: tasks}
+	bz, _ := json.Marshal(req)
+	return world.SignMsg(n, round, EvSigningStart, bz, "")
 }
